@@ -566,7 +566,7 @@ def run(ctx):
         interm = sum(1 for o in obs for r in re.findall(r"ns:([\d,]*)", o) if len(r.split(",")) > 2)
         ctx.extra["concurrent_stats"] = {"reader_polls_total": sum(polls),
                                          "readers_that_saw_intermediate_counts": interm,
-                                         "runs_crossing_first_block": sum(1 for o in obs if int(re.search(r"FINAL=(\d+)", o).group(1)) > BLOCK)}
+                                         "runs_crossing_first_block": sum(1 for o in obs for m in re.findall(r"FINAL=(\d+)", o) if int(m) > BLOCK)}
         ctx.sample({"scenario": clines[0][:300], "observation": obs[0][:400], "model_verdict": "allowed"})
     if outs and len(outs) == len(lines):
         i = next((k for k, l in enumerate(lines) if l.startswith("seq t r:k0:1 r:k1:1") and "r:K0:1" in l), 0)
